@@ -116,7 +116,9 @@ class Session:
         t = np.arange(n) * dt
         mk = lambda: np.sin(2 * np.pi * rng.uniform(1, 8) * t) + 0.5 * rng.normal(size=n)
         return h.SeismicRecording3C(h.TimeSeries(mk(), dt), h.TimeSeries(mk(), dt), h.TimeSeries(mk(), dt),
-                                    degrees_from_north=float(rng.choice([0.0, 20.0])), meta={"file name(s)": ["a.mseed", "b.mseed"]})
+                                    degrees_from_north=float(rng.choice([0.0, 20.0])),
+                                    # (every recording of a session comes from its own file(s), as when a suite of files is read)
+                                    meta={"file name(s)": [f"rec{self.n}_a.mseed", f"rec{self.n}_b.mseed"][:1 + self.n % 2]})
 
     def make_settings(self, default_fft=False, kind=None, policy=None):
         rng, h = self.rng, self.h
